@@ -50,7 +50,11 @@ func (s Spec) String() string {
 	for _, l := range s {
 		switch l.Kind {
 		case "http":
-			parts = append(parts, fmt.Sprintf("http(page=%d,max=%d,omitDigest=%v,omitLink=%v,noSinglePost=%v)", l.ClientPage, l.MaxPage, l.OmitDigest, l.OmitLink, l.NoSinglePost))
+			cs := ""
+			if l.Charset {
+				cs = ",charset"
+			}
+			parts = append(parts, fmt.Sprintf("http(page=%d,max=%d,omitDigest=%v,omitLink=%v,noSinglePost=%v%s)", l.ClientPage, l.MaxPage, l.OmitDigest, l.OmitLink, l.NoSinglePost, cs))
 		case "sub":
 			parts = append(parts, "sub("+l.Prefix+")")
 		case "unify":
